@@ -6,7 +6,7 @@ pid, m = sys.argv[1], sys.argv[2]
 verdict = sys.argv[3]
 props = sys.argv[sys.argv.index("--") + 1:]
 src = "/tmp/mut/%s-out" % pid
-dst = "/verif/seeded/%s-%s" % (pid, m)
+dst = "/verif/seeded/%s-%s%s" % (pid, m, os.environ.get("SEED_SUFFIX", ""))
 os.makedirs(dst, exist_ok=True)
 shutil.copy(os.path.join(src, m + ".diff"), os.path.join(dst, "patch.diff"))
 for ext in ("rs", "sh"):
